@@ -1086,13 +1086,21 @@ def render(ctx: Ctx, hyps, goal, logic_prelude=""):
     return "\n".join(lines)
 
 
-def verify_function(run, relpath, qualname, contract, spec, callees=None, repo=None, group=None, workers=10):
+def verify_function(run, relpath, qualname, contract, spec, callees=None, repo=None, group=None, workers=10, transform=None):
     """Generate and discharge all VCs of one function; register results on `run`.
-    Returns (ctx, results) or None when undecided."""
+    Returns (ctx, results) or None when undecided.  `transform` (FunctionDef -> FunctionDef) is a mechanical rewrite
+    of the real function's AST applied before VC generation (e.g. vf.lift); the rewritten text is what is recorded."""
     fid = f"{relpath}:{qualname}"
     t0 = time.time()
     try:
-        fv = FunctionVerifier(relpath, qualname, contract, spec, callees, repo)
+        if transform is not None:
+            with open(os.path.join(repo or REPO, relpath)) as f:
+                from .cfg import find_function
+                real = find_function(ast.parse(f.read()), qualname)
+            lifted = transform(real)
+            fv = FunctionVerifier(relpath, qualname, contract, spec, callees, repo, func=lifted, func_source=ast.unparse(lifted))
+        else:
+            fv = FunctionVerifier(relpath, qualname, contract, spec, callees, repo)
         fv.used_lemmas = set()
         ctx = fv.run()
     except (Unsupported, ContractError, KeyError, FileNotFoundError) as e:
